@@ -105,7 +105,16 @@ def h_cell_ctor(sx, cfg):
     e = [k[a] * float(c[a]) + d[a] for a in range(nd)]
     for a in range(nd):
         sx.assume(e[a] > 0)
-    region = df.Region(p1=pmin, p2=[pmin[a] + e[a] for a in range(nd)])
+    try:
+        region = df.Region(p1=pmin, p2=[pmin[a] + e[a] for a in range(nd)])
+    except ValueError:
+        if sx.sym:
+            raise
+        # native replay only: a positive edge far from the origin can be absorbed by binary64 (pmin + e == pmin); the
+        # precondition e > 0 is then not representable and the sample is not comparable
+        from symx.core import PathAbort
+
+        raise PathAbort("edge absorbed by binary64 rounding")
     cf = [float(x) for x in c]
     tol = 1e-3 * min(cf)
     up = [d[a] >= cf[a] - tol for a in range(nd)]
